@@ -32,7 +32,7 @@ Discrepancy kinds (known findings are matched on them with fnmatch patterns):
                mt-grid     only multiples k * 2**-53, k >= 1: anything MersenneTwister delivers
       <site>   "outside-interval" for DistNormalTrunc's own 'drawn value ... outside of interval'
       xparam   the parameters are in the region where the exact result leaves the double range
-               (a gamma shape < 0.05 in Gamma/Beta/Pearson5/Pearson6, Weibull alpha < 0.01,
+               (a gamma shape < 0.05 in Gamma/Pearson5/Pearson6, both shapes < 0.05 in Beta, Weibull alpha < 0.01,
                LogNormal mu + 13 sigma > 700)
   construct-raises:<Class>:<ExcType>:(p-boundary|valid-params)   documented-valid set refused
   invalid-params-accepted:<Class>:<param>:<reason>                undocumented set accepted
@@ -238,7 +238,10 @@ def _xparam(cname, p):
     """parameter region where the exact result may leave the double range (see module docstring)"""
     if cname == "DistGamma":
         return p["shape"] < 0.05
-    if cname == "DistBeta" or cname == "DistPearson6":
+    if cname == "DistBeta":
+        # y1 / (y1 + y2): only when BOTH helper gamma draws underflow there is no quotient (one tiny shape gives 0 or 1)
+        return max(p["alpha1"], p["alpha2"]) < 0.05
+    if cname == "DistPearson6":
         return min(p["alpha1"], p["alpha2"]) < 0.05
     if cname == "DistPearson5":
         return p["alpha"] < 0.05
